@@ -224,7 +224,7 @@ RBaseChoicesCache == {<<2, <<>> >>, <<2, <<1>> >>}
 \* ---- bookkeeping (C09): overwrite, identical / equal values, pruning
 RegKeysBooks == {<< <<1>>, 1, "" >>, << <<2>>, 1, "" >>, << <<2>>, 1, "n" >>,
                  << <<2, 1>>, 2, "" >>}
-SubKeysBooks == {<< <<1>>, 1 >>, << <<2>>, 0 >>}
+SubKeysBooks == {<< <<1>>, 1 >>, << <<2>>, 0 >>, << <<0>>, 1 >>}
 LookKeysBooks == {<< <<2>>, 1 >>, << <<2, 2>>, 1 >>, << <<2>>, 0 >>}
 
 \* ---- chain (C06): four registries, one registration each
@@ -290,5 +290,8 @@ RBaseChoicesTop == {<<1, <<>> >>, <<1, <<4>> >>, <<2, <<1>> >>, <<2, <<>> >>}
 RegKeysDecl == {<< <<1>>, 1, "" >>}
 SubKeysDecl == {<< <<1>>, 1 >>}
 LookKeysDecl == {<< <<2>>, 1 >>}
+\* ---- several keys with one provided interface, several values per key (C07)
+SubKeysRebuild == {<< <<1>>, 1 >>, << <<2>>, 1 >>, << <<2>>, 2 >>}
+LookKeysRebuild == {<< <<2>>, 1 >>, << <<1>>, 1 >>}
 None == {}
 =============================================================================
